@@ -177,7 +177,8 @@ Deliver(p) ==
            dst == p[2]
            mv  == Head(net[p])
            rest == [net EXCEPT ![p] = Tail(@)]
-       IN IF proc[dst].run = "up" /\ CanTalk(src, dst)
+       \* (handleGossip does not look at the node's own status: a node that is still joining merges and re-broadcasts too)
+       IN IF proc[dst].run \in {"up", "joining"} /\ CanTalk(src, dst)
           THEN LET r == Merge(view[dst], mv)
                    lv0 == [lastVV[dst] EXCEPT ![src] = mv.vv]
                    lv1 == IF r.changed THEN [t \in Nodes |-> IF t \in Allowed(dst, r.view) THEN lv0[t] ELSE Unknown] ELSE lv0
